@@ -340,9 +340,595 @@ def regen_site():
     return meta
 
 
+# =============================================================================== ground truth (Python)
+COMP = {'A': 'T', 'T': 'A', 'C': 'G', 'G': 'C'}
+REF_CONSUMING = (0, 2, 3, 7, 8)
+QUERY_CONSUMING = (0, 1, 4, 7, 8)
+
+
+def revcomp(s):
+    return ''.join(COMP.get(c, c) for c in reversed(s))
+
+
+def ref_len(cigar):
+    return sum(l for op, l in cigar if op in REF_CONSUMING)
+
+
+def ref_span(cigar):
+    return ref_len(cigar) or 1     # htslib bam_endpos
+
+
+def softclip(k):
+    return [[4, k]] if k else []
+
+
+def place_read(cycles, mid, x, reverse, clip, tail, mx=None):
+    """independent transcription of the ground truth: a read whose first sequenced cycle pairs with
+    reference position x, first `clip` / last `tail` cycles soft-clipped"""
+    if reverse:
+        end = x - clip + 1                       # one past the right-most aligned base
+        return {'start': end - ref_len(mid), 'cigar': softclip(tail) + [list(o) for o in mid] + softclip(clip),
+                'rev': True, 'seq': revcomp(cycles), 'unmapped': False, 'qcfail': False, 'mx': mx, 'lh': None}
+    return {'start': x + clip, 'cigar': softclip(clip) + [list(o) for o in mid] + softclip(tail),
+            'rev': False, 'seq': cycles, 'unmapped': False, 'qcfail': False, 'mx': mx, 'lh': None}
+
+
+def mirror_read(L, r):
+    if r is None:
+        return None
+    m = dict(r)
+    m['start'] = L - (r['start'] + ref_span(r['cigar']))
+    m['cigar'] = [list(o) for o in reversed(r['cigar'])]
+    m['rev'] = not r['rev']
+    m['seq'] = revcomp(r['seq'])
+    return m
+
+
+CFG_KEYS = ('no_umi_cigar_processing', 'check_motif', 'allow_cycle_shift', 'invert_strand')
+
+
+def cfg_kwargs(kind, c):
+    """c = (nocigar, check_motif, allow_shift, invert) -> constructor kwargs (only non-defaults, like the tagger)"""
+    kw = {}
+    if c[0]:
+        kw['no_umi_cigar_processing'] = True
+    if c[3]:
+        kw['invert_strand'] = True
+    if kind == 'nla':
+        if not c[1]:
+            kw['check_motif'] = False
+        if c[2]:
+            kw['allow_cycle_shift'] = True
+    return kw
+
+
+def enc_read(r):
+    if r is None:
+        return []
+    return [r['start'], r['cigar'], r['rev'], r['seq'], r['unmapped'], [] if r['mx'] is None else [r['mx']]]
+
+
+def model_input(case):
+    kind = 0 if case['kind'] == 'nla' else 1
+    reads = case['reads']
+    r1 = reads[0] if reads else None
+    r2 = reads[1] if len(reads) > 1 else None
+    pre = any(r is not None and r['qcfail'] for r in reads)
+    return [kind, list(case['c']), len(reads) == 2, pre, enc_read(r1),
+            [] if r2 is None else [r2['unmapped'], r2['rev']]]
+
+
+def opt(v, f=lambda x: x):
+    return None if v == [] else f(v[0])
+
+
+def decode_model(out):
+    if out == [-1]:
+        return 'raise'
+    ds, rs, rz, rr, qc, valid, loc, cs = out
+    return {'DS': opt(ds), 'RS': opt(rs, bool), 'RZ': opt(rz, fw.as_str), 'RR': opt(rr, fw.as_str), 'qc': bool(qc),
+            'valid': bool(valid), 'loc': opt(loc), 'cut_strand': opt(cs, bool)}
+
+
+def canon_impl(case, res):
+    """abstraction of the implementation's observation; returns (canonical, problems)"""
+    if 'error' in res:
+        t = res['error'].split(':')[0]
+        return ('raise' if t in ('TypeError', 'ValueError') else 'error:' + res['error']), []
+    problems = []
+    obs = [o for o in res['reads'] if o is not None]
+    ins = [r for r in case['reads'] if r is not None]
+    first = obs[0]
+    for o in obs[1:]:
+        if any(o[t] != first[t] for t in ('DS', 'RS', 'RZ', 'RR')):
+            problems.append('reads of one fragment carry different tags: %r vs %r' % (first, o))
+    qc_set = [o['qcfail'] and not i['qcfail'] for o, i in zip(obs, ins)]
+    if any(i['qcfail'] and not o['qcfail'] for o, i in zip(obs, ins)):
+        problems.append('qcfail flag cleared')
+    fresh = [q for q, i in zip(qc_set, ins) if not i['qcfail']]
+    if fresh and len(set(fresh)) != 1:
+        problems.append('qcfail set on some reads only: %r' % (qc_set,))
+    qc = bool(fresh and fresh[0])
+    loc = res['site_location']
+    c = {'DS': first['DS'], 'RS': None if first['RS'] is None else bool(first['RS']), 'RZ': first['RZ'],
+         'RR': first['RR'], 'qc': qc, 'valid': res['valid'], 'loc': None if loc is None else loc[1],
+         'cut_strand': res['cut_site_strand']}
+    if res['strand'] != res['cut_site_strand']:
+        problems.append('fragment.strand %r != cut_site_strand %r' % (res['strand'], res['cut_site_strand']))
+    if (res['match_hash'] is None) == res['valid']:
+        problems.append('match_hash %r inconsistent with is_valid %r' % (res['match_hash'], res['valid']))
+    if res['match_hash'] is not None and (res['match_hash'][-2] != c['loc'] or res['match_hash'][-4] != c['cut_strand']):
+        problems.append('match_hash %r does not carry the site' % (res['match_hash'],))
+    if loc is not None and res['get_site_location'] != loc:
+        problems.append('get_site_location differs from site_location')
+    return c, problems
+
+
+def mask_qc(case, m):
+    """the model says `identify_site flags the reads`; when every read already carried the flag the
+    implementation's observation cannot show it"""
+    if isinstance(m, dict) and all(r['qcfail'] for r in case['reads'] if r is not None):
+        m = dict(m)
+        m['qc'] = False
+    return m
+
+
+# =============================================================================== the check
 class Prop(fw.PropBase):
     ID = 'C09'
     PROPS = 'Props/C09.v'
+    TRUSTED = [
+        'tools/c09.py Extractor/SiteTranslator (statement-level extraction of identify_site into Gen/GenSite.v; '
+        'fails closed on unrecognised statements; watched by K on every run)',
+        'modelled not verified: pysam AlignedSegment (reference_end = reference_start + reference-consuming CIGAR '
+        'lengths, cigartuples, seq slicing, tag storage) - K compares pysam\'s geometry with the harness on every case; '
+        'Fragment.__init__ bookkeeping (sample, UMI, span), set_meta writing the same tag to every read',
+        'not modelled: NlaIIIFragment(no_overhang=True) (reference lookup mode), max_fragment_size, the CHIC '
+        'homopolymer filter (max_NUC_stretch=18): generated reads have no 18-mer homopolymers',
+    ]
+    ASSUMPTIONS = [
+        'the aligner reports the read-start clipping as one soft-clip operation at the outer end of the CIGAR '
+        '(no hard clip outside it) and the aligned part contains no clip operations',
+        'with no_umi_cigar_processing the site theorems hold for unclipped read starts only (that flag switches the '
+        'clip correction off by design)',
+        'ground truth = the simulator simulate_nla / simulate_chic (first sequenced cycle pairs with the first base of '
+        'the motif / with the ligated overhang base)',
+    ]
 
     def regen(self):
         return regen_site()
+
+    # ---------------------------------------------------------------- generators
+    def rand_seq(self, n):
+        while True:
+            s = ''.join(self.rng.choice('ACGT') for _ in range(n))
+            if not any(b * 12 in s for b in 'ACGT'):
+                return s
+
+    def rand_mid(self, qlen):
+        """aligned part of a CIGAR consuming qlen query bases"""
+        r = self.rng.random()
+        if qlen < 6 or r < 0.6:
+            return [[0, qlen]]
+        a = self.rng.randint(1, qlen - 4)
+        if r < 0.7:
+            b = self.rng.randint(1, min(3, qlen - a - 1))
+            return [[0, a], [1, b], [0, qlen - a - b]]
+        if r < 0.8:
+            return [[0, a], [2, self.rng.randint(1, 5)], [0, qlen - a]]
+        if r < 0.9:
+            return [[0, a], [3, self.rng.randint(20, 400)], [0, qlen - a]]
+        b = self.rng.randint(1, qlen - a - 1)
+        return [[7, a], [8, b], [7, qlen - a - b]] if qlen - a - b > 0 else [[7, a], [8, qlen - a]]
+
+    MOTIFS = ['CATG', 'CATG', 'CATG', 'AATG', 'CTTG', 'CAGG', 'CATC', 'NATG', 'ATGC', 'ATGA', 'GCAT', 'TTTT', 'CAT', 'ATG', 'C', '']
+    MX = ['scCHIC384C8U3', 'scCHIC384C8U3l', 'scCHIC', None, 'CS2C8U6', 'NLAIII384C8U3', 'scCHI', 'xscCHIC384']
+    ALL_CFG = list(itertools.product((False, True), repeat=4))
+
+    def partner(self, r1, how):
+        """second read of the pair"""
+        if how == 'none':
+            return None
+        n = self.rng.randint(8, 20)
+        rev = (not r1['rev']) if how in ('opposite', 'unmapped') else r1['rev']
+        start = max(0, r1['start'] + self.rng.randint(-60, 60))
+        r2 = {'start': start, 'cigar': [[0, n]], 'rev': rev, 'seq': self.rand_seq(n), 'unmapped': False,
+              'qcfail': False, 'mx': r1['mx'], 'lh': None}
+        if how == 'unmapped':
+            r2['unmapped'] = True
+            r2['cigar'] = []
+        return r2
+
+    def nla_case(self, c, reverse, clip, tail, lost, motif, body_len, p, pair='none', qcfail=False, mid=None, two=True):
+        cycles = motif + self.rand_seq(body_len)
+        if self.rng.random() < 0.3:
+            cycles = cycles + 'CATG'        # motif at the far end of the read (must not be used)
+        stored = cycles[1:] if lost else cycles
+        qlen = len(stored) - clip - tail
+        if qlen < 1:
+            return None
+        mid = mid or self.rand_mid(qlen)
+        d = 1 if lost else 0
+        x = (p + 3 - d) if reverse else (p + d)
+        r1 = place_read(stored, mid, x, reverse, clip, tail, mx='NLAIII384C8U3')
+        r1['qcfail'] = qcfail
+        reads = [r1, self.partner(r1, pair)] if two else [r1]
+        return {'kind': 'nla', 'c': list(c), 'reads': reads,
+                'truth': {'p': p, 'reverse': reverse, 'clip': clip, 'tail': tail, 'lost': lost, 'cycles': cycles}}
+
+    def chic_case(self, c, reverse, clip, tail, mx, body_len, x, pair='absent', qcfail=False, mid=None):
+        trimmed = mx is not None and mx.startswith('scCHIC')
+        cycles = ('' if trimmed else self.rng.choice('TTTA')) + self.rand_seq(body_len)
+        qlen = len(cycles) - clip - tail
+        if qlen < 1:
+            return None
+        mid = mid or self.rand_mid(qlen)
+        d = 1 if trimmed else 0
+        r1 = place_read(cycles, mid, (x - d) if reverse else (x + d), reverse, clip, tail, mx=mx)
+        r1['qcfail'] = qcfail
+        reads = [r1] if pair == 'absent' else [r1, self.partner(r1, pair)]
+        return {'kind': 'chic', 'c': list(c), 'reads': reads,
+                'truth': {'x': x, 'reverse': reverse, 'clip': clip, 'tail': tail, 'trimmed': trimmed}}
+
+    def edge_cases(self):
+        out = []
+        base = {'start': 500, 'cigar': [[0, 10]], 'rev': False, 'seq': 'CATGAAACCC', 'unmapped': False,
+                'qcfail': False, 'mx': None, 'lh': None}
+
+        def rd(**k):
+            d = dict(base)
+            d.update(k)
+            return d
+        for c in self.ALL_CFG:
+            for kind in ('nla', 'chic'):
+                for rev in (False, True):
+                    seq = 'AAACCCCATG' if rev else 'CATGAAACCC'
+                    out.append({'kind': kind, 'c': list(c), 'reads': [rd(cigar=[], rev=rev, seq=seq), None]})       # no CIGAR
+                    out.append({'kind': kind, 'c': list(c), 'reads': [rd(cigar=[], unmapped=True, rev=rev), None]})  # unmapped
+                    out.append({'kind': kind, 'c': list(c), 'reads': [None, rd(rev=rev, seq=seq)]})                  # R1 missing
+                    out.append({'kind': kind, 'c': list(c), 'reads': [rd(cigar=[[5, 3], [4, 2], [0, 8], [4, 2], [5, 1]] if not rev
+                                                                           else [[5, 1], [4, 2], [0, 8], [4, 2], [5, 3]], rev=rev, seq=seq + 'AA'), None]})
+                    out.append({'kind': kind, 'c': list(c), 'reads': [rd(cigar=[[4, 10]], rev=rev, seq=seq), None]})  # clip only
+                    for s in ('ATG', 'CAT', 'CATG', 'A', 'AT', 'TG', 'ATGC', 'GCAT'):
+                        out.append({'kind': kind, 'c': list(c), 'reads': [rd(cigar=[[0, len(s)]], rev=rev, seq=s), None]})
+                        if len(s) > 1:
+                            out.append({'kind': kind, 'c': list(c), 'reads': [rd(cigar=[[4, 1], [0, len(s) - 1]] if not rev else
+                                                                                   [[0, len(s) - 1], [4, 1]], rev=rev, seq=s), None]})
+            out.append({'kind': 'nla', 'c': list(c), 'reads': [rd()]})          # one-element read list
+            out.append({'kind': 'chic', 'c': list(c), 'reads': [rd()]})
+        return out
+
+    def make_cases(self):
+        rng = self.rng
+        quick = self.tier == 'quick'
+        cases = []
+        # 1. exhaustive small scope: every configuration x strand x clip 0..6 x lost x motif variant
+        for c in self.ALL_CFG:
+            for reverse in (False, True):
+                for clip in range(0, 7):
+                    for lost in (False, True):
+                        for motif in self.MOTIFS:
+                            for tail in ((0,) if quick else (0, 2)):
+                                cs = self.nla_case(c, reverse, clip, tail, lost, motif, 8 + clip + tail, rng.randint(50, 90000))
+                                if cs:
+                                    cases.append(cs)
+                    for mx in self.MX:
+                        for tail in ((0,) if quick else (0, 2)):
+                            cs = self.chic_case(c, reverse, clip, tail, mx, 9 + clip + tail, rng.randint(50, 90000))
+                            if cs and (c[1], c[2]) == (True, False):   # check_motif / allow_shift do not exist for chic
+                                cases.append(cs)
+        n_exh = len(cases)
+        # 2. random: longer reads, indel CIGARs, pairs, qcfail input, motif errors
+        N = 3000 if quick else 40000
+        for _ in range(N):
+            c = rng.choice(self.ALL_CFG)
+            reverse = rng.random() < 0.5
+            clip = rng.choice([0, 0, 1, 2, 3, 4, 5, 6, rng.randint(0, 12)])
+            tail = rng.choice([0, 0, 0, 1, 3, rng.randint(0, 8)])
+            qc = rng.random() < 0.06
+            if rng.random() < 0.55:
+                pair = rng.choice(['none', 'none', 'opposite', 'opposite', 'same', 'unmapped'])
+                cs = self.nla_case(c, reverse, clip, tail, rng.random() < 0.3, rng.choice(self.MOTIFS),
+                                   rng.randint(4, 60), rng.randint(50, 90000), pair=pair, qcfail=qc)
+            else:
+                pair = rng.choice(['absent', 'none', 'opposite', 'opposite', 'same', 'unmapped'])
+                cs = self.chic_case(c, reverse, clip, tail, rng.choice(self.MX), rng.randint(4, 60),
+                                    rng.randint(50, 90000), pair=pair, qcfail=qc)
+            if cs:
+                if cs['reads'][-1] is not None and len(cs['reads']) > 1 and rng.random() < 0.1:
+                    cs['reads'][1]['qcfail'] = True
+                cases.append(cs)
+        cases += self.edge_cases()
+        # 2b. libraries that additionally go through a BAM file on disk and MoleculeIterator
+        self.libs = []
+        for li in range(4 if quick else 32):
+            kind = 'nla' if li % 2 == 0 else 'chic'
+            c = rng.choice([c for c in self.ALL_CFG if kind == 'nla' or (c[1], c[2]) == (True, False)])
+            idxs = []
+            for k in range(60):
+                p = 500 + 1500 * k + rng.randint(0, 40)
+                reverse, clip, tail = rng.random() < 0.5, rng.choice([0, 0, 1, 2, 3, 6]), rng.choice([0, 0, 2])
+                pair = rng.choice(['none', 'opposite'])
+                if kind == 'nla':
+                    cs = self.nla_case(c, reverse, clip, tail, rng.random() < 0.3, rng.choice(self.MOTIFS[:12]),
+                                       rng.randint(10, 40), p, pair=pair)
+                else:
+                    cs = self.chic_case(c, reverse, clip, tail, rng.choice(self.MX), rng.randint(10, 40), p, pair=pair)
+                if cs:
+                    idxs.append(len(cases))
+                    cases.append(cs)
+            self.libs.append({'id': li, 'kind': kind, 'c': list(c), 'idx': idxs})
+        # 3. every case also mirrored onto the reverse-complemented reference
+        L = 100000
+        mirrored = []
+        for k, cs in enumerate(cases):
+            m = {'kind': cs['kind'], 'c': cs['c'], 'reads': [mirror_read(L, r) for r in cs['reads']], 'mirror_of': k}
+            mirrored.append(m)
+        return cases, mirrored, n_exh, L
+
+    def load_corpus(self):
+        d = os.path.join(fw.VERIF, 'corpus', 'C09')
+        out = []
+        if os.path.isdir(d):
+            for f in sorted(os.listdir(d)):
+                if f.endswith('.json'):
+                    out.append(json.load(open(os.path.join(d, f))))
+        return out
+
+    def payload_case(self, cs):
+        return {'kind': cs['kind'], 'cfg': cfg_kwargs(cs['kind'], cs['c']), 'reads': cs['reads']}
+
+    # ---------------------------------------------------------------- K
+    def correspondence(self):
+        corpus = self.load_corpus()
+        cases, mirrored, n_exh, L = self.make_cases()
+        allc = corpus + cases + mirrored
+        off = len(corpus)
+        self.L, self.off, self.n_plain = L, off, len(cases)
+        bam_payload = [{'id': lib['id'], 'kind': lib['kind'], 'cfg': cfg_kwargs(lib['kind'], lib['c']),
+                        'cases': [self.payload_case(cases[k]) for k in lib['idx']]} for lib in self.libs]
+        out = fw.run_impl('impl_c09.py', {'cases': [self.payload_case(c) for c in allc], 'bam': bam_payload})
+        res, self.bam_res = out['cases'], out['bam']
+        self.allc, self.res = allc, res
+        impl, problems = [], []
+        for cs, r in zip(allc, res):
+            c, pr = canon_impl(cs, r)
+            impl.append(c)
+            if pr:
+                problems.append({'input': self.payload_case(cs), 'problems': pr})
+            # pysam contract used by the model: reference_end = start + reference-consuming lengths
+            if 'geo' in r:
+                for spec, g in zip(cs['reads'], r['geo']):
+                    if spec is None:
+                        continue
+                    exp_end = None if (spec['unmapped'] or not spec['cigar']) else spec['start'] + ref_span(spec['cigar'])
+                    exp_ct = [list(x) for x in spec['cigar']] or None
+                    if g['reference_end'] != exp_end or g['cigartuples'] != exp_ct or g['seq'] != spec['seq'] \
+                            or g['reference_start'] != spec['start']:
+                        problems.append({'input': spec, 'problems': ['pysam geometry differs from the model contract: %r' % (g,)]})
+        self.impl = impl
+
+        def nontrivial(cs):
+            r1 = cs['reads'][0] if cs['reads'] else None
+            return r1 is not None and not r1['unmapped'] and (r1['rev'] or any(op == 4 for op, _ in r1['cigar']))
+        keys = set()
+        for cs in allc:
+            if nontrivial(cs):
+                keys.add(fw.canon_hash([cs['kind'], cs['c'], [enc_read(r) for r in cs['reads']]]))
+        truth = [cs for cs in cases if 'truth' in cs]
+        hist_clip, hist_kind = {}, {}
+        for cs in truth:
+            hist_clip[cs['truth']['clip']] = hist_clip.get(cs['truth']['clip'], 0) + 1
+            k = '%s/%s' % (cs['kind'], 'rev' if cs['truth']['reverse'] else 'fwd')
+            hist_kind[k] = hist_kind.get(k, 0) + 1
+        outcome_hist = {}
+        for c in impl:
+            k = c if isinstance(c, str) else ('site' if c['DS'] is not None else 'rejected:%s' % c['RR'])
+            outcome_hist[k] = outcome_hist.get(k, 0) + 1
+        self.cov.update({
+            'evaluations': len(allc),
+            'distinct_nontrivial': len(keys),
+            'rule': 'one evaluation = one fragment built from in-memory pysam reads through NlaIIIFragment / CHICFragment; '
+                    'non-trivial = R1 mapped and (reverse strand or soft-clipped); distinct by hash of (class, config, reads). '
+                    'every case is also run mirrored onto the reverse-complemented reference',
+            'exhaustive': False,
+            'exhaustive_small_scope': 'all 16 configurations x strand x clip 0..6 x lost-cycle x %d motif variants (nla), x %d MX layouts (chic): %d cases'
+                          % (len(self.MOTIFS), len(self.MX), n_exh),
+            'corpus_cases': len(corpus), 'simulated': len(truth), 'mirrored': len(mirrored),
+            'hist_clip': {str(k): v for k, v in sorted(hist_clip.items())}, 'hist_class_strand': hist_kind,
+            'hist_outcome': outcome_hist,
+            'samples': [{'input': self.payload_case(allc[i]), 'impl': impl[i]} for i in (off, off + n_exh // 2, off + len(cases) - 1)],
+        })
+        if problems:
+            self.problems = problems
+            raise fw.Broken('correspondence', 'implementation observation inconsistent: %r' % (problems[0],))
+        if not self.model_ok:
+            return
+        self.raw_model = fw.run_model('C09', 0, [model_input(c) for c in allc])
+        mout = [decode_model(o) for o in self.raw_model]
+        dis = []
+        for i, (cs, m, im) in enumerate(zip(allc, mout, impl)):
+            if mask_qc(cs, m) != im:
+                dis.append({'input': self.payload_case(cs), 'model': m, 'impl': im})
+        # BAM round trip: tags written through MoleculeIterator(fragment_class_args=...) on reads read back from disk
+        nbam = 0
+        for lib, br in zip(self.libs, self.bam_res):
+            if 'error' in br:
+                dis.append({'what': 'BAM round trip raised', 'impl': br['error'], 'input': lib['c']})
+                continue
+            for n, k in enumerate(lib['idx']):
+                m, got = mout[off + k], br.get('f%04d' % n)
+                nbam += 1
+                if isinstance(m, dict) and m['valid']:
+                    exp = {'qcfail': False, 'DS': m['DS'], 'RS': int(m['RS']), 'RZ': m['RZ'], 'RR': m['RR']}
+                    if got is None or any(v != exp for v in got.values()):
+                        dis.append({'what': 'tags after BAM round trip + MoleculeIterator differ from the model',
+                                    'input': self.payload_case(cases[k]), 'model': exp, 'impl': got})
+                elif got is not None:
+                    dis.append({'what': 'fragment the model rejects was emitted by MoleculeIterator',
+                                'input': self.payload_case(cases[k]), 'model': m, 'impl': got})
+        self.cov['bam_roundtrip_fragments'] = nbam
+        # the Coq simulator / mirror against the independent Python ones
+        sim_in, sim_exp = [], []
+        for cs in truth:
+            t, r1 = cs['truth'], cs['reads'][0]
+            mid = [o for o in r1['cigar'] if o[0] != 4]
+            if cs['kind'] == 'nla':
+                sim_in.append([0, t['cycles'], mid, t['p'], t['reverse'], t['clip'], t['tail'], t['lost'], []])
+                e = dict(r1, mx=None)
+            else:
+                cyc = revcomp(r1['seq']) if r1['rev'] else r1['seq']
+                sim_in.append([1, cyc, mid, t['x'], t['reverse'], t['clip'], t['tail'], t['trimmed'],
+                               [] if r1['mx'] is None else [r1['mx']]])
+                e = r1
+            sim_exp.append(fw.to_val(enc_read(e)))
+        sim_out = fw.run_model('C09', 1, sim_in)
+        for a, b, cs in zip(sim_out, sim_exp, truth):
+            if a != b:
+                dis.append({'what': 'Coq simulator differs from the Python ground-truth simulator', 'input': cs['truth'],
+                            'model': a, 'python': b})
+        mir_idx = [k for k, cs in enumerate(cases) if cs['reads'] and cs['reads'][0] is not None]
+        mir_out = fw.run_model('C09', 2, [[L, enc_read(cases[k]['reads'][0])] for k in mir_idx])
+        for k, a in zip(mir_idx, mir_out):
+            b = fw.to_val(enc_read(mirrored[k]['reads'][0]))
+            if a != b:
+                dis.append({'what': 'Coq mirror differs from the Python mirror', 'input': cases[k]['reads'][0], 'model': a, 'python': b})
+        self.cov['traces_validated_against_impl'] = len(allc)
+        self.cov['simulator_crosschecked'] = len(sim_in)
+        self.cov['mirror_crosschecked'] = len(mir_idx)
+        self.cov['disagreements'] = len(dis)
+        pre = sum(1 for cs in truth if self.in_scope(cs))
+        self.cov['precondition_hit_rate'] = round(pre / max(1, len(truth)), 4)
+        idx = sorted(self.rng.sample(range(len(allc)), 100))
+        ok, nm, log = fw.vm_crosscheck('C09', 0, [(model_input(allc[i]), fw.to_val(self.raw_model[i])) for i in idx])
+        self.cov['vm_compute_crosscheck'] = {'cases': len(idx), 'mismatches': nm}
+        if not ok:
+            raise fw.Broken('extraction', 'vm_compute and extracted model disagree: ' + log[-800:])
+        if dis:
+            self.dis = dis
+            raise fw.Broken('correspondence', 'model and implementation disagree on %d cases; first: %r' % (len(dis), dis[0]))
+
+    def in_scope(self, cs):
+        """the simulated case satisfies the hypotheses of one of the site theorems"""
+        t = cs['truth']
+        return not cs['c'][0] or t['clip'] == 0
+
+    # ---------------------------------------------------------------- search (specification on the implementation)
+    @staticmethod
+    def expectation(cs):
+        """direct Python transcription of the theorem statements (Props/C09.v) for a simulated case:
+        ('site', pos, RS, cut_strand, RZ) | ('rejected',) | None when no theorem speaks about the case"""
+        t = cs.get('truth')
+        if t is None:
+            return None
+        nocigar, cm, sh, inv = cs['c']
+        clip_ok = (not nocigar) or t['clip'] == 0
+        rev = t['reverse']
+        if cs['kind'] == 'nla':
+            if len(cs['reads']) != 2:
+                return None
+            stored = t['cycles'][1:] if t['lost'] else t['cycles']
+            first4 = stored[:4]
+            if not t['lost'] and first4 == 'CATG':
+                return ('site', t['p'], rev != inv, rev, 'CATG') if clip_ok else None      # C09_nla_site
+            if cm and first4 != 'CATG' and (not sh or not first4.startswith('ATG')):
+                return ('rejected',)                                                        # C09_nla_reject(_simulated), _shift_off
+            if t['lost'] and t['cycles'][:4] == 'CATG' and cm and sh:
+                return ('site', t['p'], rev != inv, rev, 'CAT' if rev else 'ATG') if clip_ok else None  # C09_nla_shift
+            return None
+        r2 = cs['reads'][1] if len(cs['reads']) > 1 else None
+        if r2 is not None and not r2['unmapped'] and r2['rev'] == rev:
+            return None
+        if not clip_ok:
+            return None
+        return ('site', t['x'] + 1 if rev else t['x'] - 1, rev != inv, rev != inv, None)    # C09_chic_site
+
+    def search(self):
+        if getattr(self, 'res', None) is None:
+            corpus = self.load_corpus()
+            cases, mirrored, n_exh, L = self.make_cases()
+            self.allc = corpus + cases + mirrored
+            self.L, self.off, self.n_plain = L, len(corpus), len(cases)
+            bam_payload = [{'id': lib['id'], 'kind': lib['kind'], 'cfg': cfg_kwargs(lib['kind'], lib['c']),
+                            'cases': [self.payload_case(cases[k]) for k in lib['idx']]} for lib in self.libs]
+            out = fw.run_impl('impl_c09.py', {'cases': [self.payload_case(c) for c in self.allc], 'bam': bam_payload})
+            self.res, self.bam_res = out['cases'], out['bam']
+        if getattr(self, 'impl', None) is None:
+            self.impl = [canon_impl(cs, r)[0] for cs, r in zip(self.allc, self.res)]
+        best = {}
+
+        def size(cs):
+            r1 = cs['reads'][0]
+            return (len(r1['seq']) + sum(l for _, l in r1['cigar'] if _ == 4) * 3 + len(r1['cigar'])) if r1 else 0
+
+        def offer(key, cs, what, im, exp):
+            w = {'key': key, 'what': what, 'input': self.payload_case(cs), 'truth': cs.get('truth'), 'impl': im, 'expected': exp}
+            if key not in best or size(cs) < best[key][0]:
+                best[key] = (size(cs), w)
+        for cs, im in zip(self.allc, self.impl):
+            e = self.expectation(cs)
+            if e is None:
+                continue
+            t = cs['truth']
+            strand = 'rev' if t['reverse'] else 'fwd'
+            pre = any(r is not None and r['qcfail'] for r in cs['reads'])
+            allq = all(r['qcfail'] for r in cs['reads'] if r is not None)
+            if e[0] == 'site':
+                exp = {'DS': e[1], 'RS': e[2], 'RZ': e[4], 'RR': None, 'qc': False, 'valid': not pre, 'loc': e[1], 'cut_strand': e[3]}
+                if im != exp:
+                    kind = 'shift' if t.get('lost') else 'site'
+                    lay = ('' if cs['kind'] == 'nla' else (':trimmed' if t['trimmed'] else ':untrimmed'))
+                    where = ('the CATG at %d' % t['p']) if cs['kind'] == 'nla' else ('the overhang base at %d' % t['x'])
+                    offer('%s:%s:%s%s' % (cs['kind'], kind, strand, lay), cs,
+                          '%s fragment simulated from %s (%s strand, %d clipped cycles at the read start, %d at its end%s): observed %r, expected %r'
+                          % (cs['kind'], where, strand, t['clip'], t['tail'], ', first cycle lost' if t.get('lost') else '', im, exp), im, exp)
+            else:
+                ok = isinstance(im, dict) and im['DS'] is None and im['valid'] is False and im['RZ'] is None \
+                    and im['RR'] is not None and (im['qc'] or allq)
+                if not ok:
+                    offer('nla:reject:%s' % strand, cs,
+                          'nla fragment whose first cycles are %r (no CATG) was not rejected: %r' % (t['cycles'][:5], im), im,
+                          'DS absent, not valid, qcfail')
+        # mirror relation between the two runs of every case
+        L, off, n = self.L, self.off, self.n_plain
+        for k in range(n):
+            cs = self.allc[off + k]
+            r1 = cs['reads'][0] if cs['reads'] else None
+            if r1 is None or r1['unmapped'] or not r1['cigar'] or (cs['kind'] == 'nla' and len(cs['reads']) != 2):
+                continue
+            a, b = self.impl[off + k], self.impl[off + n + k]
+            w = 4 if cs['kind'] == 'nla' else 1
+            if isinstance(a, dict):
+                exp = {'DS': None if a['DS'] is None else L - w - a['DS'], 'RS': None if a['RS'] is None else not a['RS'],
+                       'RZ': None if a['RZ'] is None else revcomp(a['RZ']), 'qc': a['qc'], 'valid': a['valid'],
+                       'loc': None if a['loc'] is None else L - w - a['loc'],
+                       'cut_strand': None if a['cut_strand'] is None else not a['cut_strand']}
+                got = {x: b[x] for x in exp} if isinstance(b, dict) else b
+            else:
+                exp, got = a, b
+            if got != exp:
+                offer('%s:mirror' % cs['kind'], cs,
+                      '%s fragment and its mirror image on the reverse-complemented reference (L=%d) are not assigned mirrored '
+                      'sites: original %r, mirrored %r, expected %r' % (cs['kind'], L, a, got, exp),
+                      {'original': a, 'mirrored': got}, exp)
+        # BAM round trip against the specification
+        for lib, br in zip(getattr(self, 'libs', []), getattr(self, 'bam_res', [])):
+            if 'error' in br:
+                self.witnesses.append({'key': 'bam:error', 'what': 'BAM round trip raised ' + br['error'], 'input': lib['c']})
+                continue
+            for nn, k in enumerate(lib['idx']):
+                cs = self.allc[off + k]
+                e, got = self.expectation(cs), br.get('f%04d' % nn)
+                if e is None:
+                    continue
+                if e[0] == 'site':
+                    exp = {'qcfail': False, 'DS': e[1], 'RS': int(e[2]), 'RZ': e[4], 'RR': None}
+                    if got is None or any(v != exp for v in got.values()):
+                        offer('bam:%s:site' % cs['kind'], cs, 'after a BAM round trip through MoleculeIterator the reads carry %r, expected %r'
+                              % (got, exp), got, exp)
+                elif got is not None:
+                    offer('bam:%s:reject' % cs['kind'], cs, 'fragment without CATG at its start was emitted with tags %r' % (got,), got, None)
+        for p in getattr(self, 'problems', [])[:1]:
+            self.witnesses.append({'key': 'observation', 'what': '; '.join(p['problems']), 'input': p['input']})
+        for key in sorted(best):
+            self.witnesses.append(best[key][1])
